@@ -451,6 +451,160 @@ def demoRank (n : Nat) : Nat := if n = 0 ∨ n = 3 then 0 else if n = 2 ∨ n = 
 example : Ranked demoDict demoRank ∧ AttrNamesUnique demoDict ∧ NamesUnique demoDict ∧ candEntities demoDict 0 = [0, 1, 5, 6, 2, 7, 7] :=
   ⟨⟨by decide, fun n => by unfold demoRank; split <;> (try split) <;> (try split) <;> simp [demoDict]⟩, by unfold AttrNamesUnique; decide, by unfold NamesUnique; decide, by decide⟩
 
+/-! ## end to end: the declared schema and the instances as the file means them
+
+An independent formulation of the property: the specification below mentions only the dictionary's declarations (`supsOf`, `attrsOf`)
+through their reflexive-transitive closure `SupStar` and the instances with their attribute values *by descriptor* — none of the
+implementation-side functions (`mkInst`, `typesOf`, `attrOwner`, `attrOrder`, `zipAttrs`, `candEntities`).  What connects the two sides
+is the Part 21 internal mapping (`encode`: the parameter list of a simple instance holds the explicit attributes of its entity and its
+supertypes, supertypes first — `layoutOf`; that the loaded instance's `attributes` list has this order is C02's `C02_attr_order`). -/
+
+/-- an instance as the file means it: the entities it is mapped to (one = internal mapping, several = external mapping) and, for the
+    explicit attribute `a` declared by entity `o`, the instances its value refers to (directly or as aggregate elements) -/
+structure SInst where
+  id : Nat
+  ents : List Nat
+  val : Nat → Nat → List Nat
+
+/-- entity `o` declares an explicit attribute named `a` -/
+def Declares (d : Dict) (o a : Nat) : Prop := (attrsOf d o).any (fun p => p.1 == a) = true
+
+/-- **Spec.Inverse over the declared schema**: `y` is a real referrer of `x` for `INVERSE … OF over FOR a` — `y` is of type `over` or a
+    subtype, and its value of the attribute `a` that `over` declares or inherits refers to `x` -/
+def Referrer (d : Dict) (x : Nat) (iv : InvDecl) (y : SInst) : Prop :=
+  ∃ k ∈ y.ents, SupStar d k iv.over ∧ ∃ o, SupStar d iv.over o ∧ Declares d o iv.attrName ∧ x ∈ y.val o iv.attrName
+
+/-- the explicit attributes of a simple instance of entity `k` in Part 21 order: (declaring entity, name, aggregate-valued) -/
+def layoutOf (d : Dict) (k : Nat) : List (Nat × Nat × Bool) :=
+  (attrOrder d k).flatMap (fun e => (attrsOf d e).map (fun q => (e, q.1, q.2)))
+
+/-- the instance as it stands in the file and in the lazy index: keyword and parameter list of a simple instance; a complex instance is
+    indexed under the empty keyword -/
+def encode (d : Dict) (y : SInst) : PInst :=
+  match y.ents with
+  | [k] => { id := y.id, kw := some k, vals := (layoutOf d k).map (fun q => y.val q.1 q.2.1) }
+  | _ => { id := y.id, kw := none, vals := [] }
+
+/-- an attribute name is declared at most once among an entity and its supertypes (EXPRESS: the attribute names of an entity,
+    inherited ones included, are distinct) -/
+def InheritUnique (d : Dict) : Prop :=
+  ∀ e o1 o2 a, SupStar d e o1 → SupStar d e o2 → Declares d o1 a → Declares d o2 a → o1 = o2
+
+theorem encode_id (d : Dict) (y : SInst) : (encode d y).id = y.id := by
+  unfold encode; split <;> rfl
+
+theorem mkInst_id (d : Dict) (p : PInst) : (mkInst d p).id = p.id := by
+  unfold mkInst; split <;> rfl
+
+theorem specRefs_map {α} (l : List α) (g : α → Inst) (idf : α → Nat) (x : Nat) (ia : InvAttr) (hid : ∀ p, (g p).id = idf p) :
+    specRefs (l.map g) x ia = (l.filter (fun p => (g p).types.contains ia.over &&
+      (g p).attrs.any (fun a => a.owner == ia.attrOwner && a.name == ia.attrName && a.refs.contains x))).map idf := by
+  unfold specRefs
+  induction l with
+  | nil => rfl
+  | cons p t ih =>
+    simp only [List.map_cons, List.filter_cons]
+    split <;> simp_all
+
+open Classical in
+/-- **exactly the real referrers, end to end** (`_partial`): for every acyclic dictionary with distinct attribute names (per entity and
+    along inheritance), every population of instances as the file means them in which the instances are simple and no referrer's entity
+    redeclares the inverted attribute, every instance `x` of entity `k` in it, every aggregate-valued inverse attribute `iv` of `k` (own
+    or inherited: `iv ∈ slots d k`) whose inverted attribute is declared by the inverted entity or a supertype: what the resolver leaves
+    in the slot — computed from the file encoding of the population — is exactly the list of the instances `y` with `Referrer d x iv y`,
+    in population order, each once.
+    Excluded, spelled out: complex (externally mapped) instances in the population (`hsimple`; the code indexes them under the empty
+    keyword and never makes them candidates: `C11_complex_referrer_witness`, kept finding `complex-referrer`); referrers whose entity
+    redeclares the inverted attribute (`hnr`; `STEPread` skips the value: `C11_redeclared_witness`, kept finding
+    `redeclared-inverted-attr`); single-valued inverse attributes (`C11_single`). -/
+theorem C11_exact_schema_partial (d : Dict) (rank : Nat → Nat) (h : Ranked d rank) (hd : AttrNamesUnique d) (hu : InheritUnique d)
+    (spop : List SInst) (hsimple : ∀ y ∈ spop, ∃ k', y.ents = [k'])
+    (x k : Nat) (hx : ∃ sx ∈ spop, sx.id = x ∧ sx.ents = [k])
+    (iv : InvDecl) (hs : iv ∈ slots d k) (ha : iv.aggr = true)
+    (hwf : ∃ e, SupStar d iv.over e ∧ Declares d e iv.attrName)
+    (hnr : ∀ y ∈ spop, ∀ k', y.ents = [k'] → (redeclOf d k').contains iv.attrName = false) :
+    resolveD d (spop.map (encode d)) x k iv =
+      .ok ((spop.filter (fun y => decide (Referrer d x iv y))).map (·.id)) := by
+  have _ := hx
+  -- the descriptor `InitIAttrs` links the inverse attribute to
+  have hsome := (C11_attr_owner d rank h iv.over iv.attrName).2 hwf
+  obtain ⟨o, ho⟩ : ∃ o, attrOwner d iv.over iv.attrName = some o := by
+    cases hq : attrOwner d iv.over iv.attrName with
+    | none => rw [hq] at hsome; cases hsome
+    | some o => exact ⟨o, rfl⟩
+  obtain ⟨ho1, ho2⟩ := (C11_attr_owner d rank h iv.over iv.attrName).1 o ho
+  rw [C11_exact_dict d hd (spop.map (encode d)) x k iv hs o ho ha, List.map_map]
+  rw [specRefs_map spop (mkInst d ∘ encode d) (·.id) x (mkIA iv o) (fun p => by
+    show (mkInst d (encode d p)).id = p.id
+    rw [mkInst_id, encode_id])]
+  have hfil : ∀ y ∈ spop, ((mkInst d (encode d y)).types.contains (mkIA iv o).over &&
+      (mkInst d (encode d y)).attrs.any (fun a => a.owner == (mkIA iv o).attrOwner && a.name == (mkIA iv o).attrName && a.refs.contains x))
+      = decide (Referrer d x iv y) := by
+    intro y hy
+    obtain ⟨k', hk'⟩ := hsimple y hy
+    have hrd := hnr y hy k' hk'
+    have henc : mkInst d (encode d y) = Inst.mk y.id (typesOf d k')
+        (zipAttrs (redeclOf d k') (layoutOf d k') ((layoutOf d k').map (fun q => y.val q.1 q.2.1))) := by
+      unfold encode mkInst layoutOf
+      rw [hk']
+    rw [henc]
+    simp only [mkIA]
+    -- both sides as propositions
+    have hl : ((typesOf d k').contains iv.over = true ∧
+        (zipAttrs (redeclOf d k') (layoutOf d k') ((layoutOf d k').map (fun q => y.val q.1 q.2.1))).any
+          (fun a => a.owner == o && a.name == iv.attrName && a.refs.contains x) = true) ↔ Referrer d x iv y := by
+      rw [zipAttrs_any]
+      constructor
+      · rintro ⟨ht, q, hq, hq1, hq2, _, hxq⟩
+        have hko : SupStar d k' iv.over := (C11_types_closure d rank h k' iv.over).mp (by simpa using ht)
+        refine ⟨k', by rw [hk']; simp, hko, o, ho1, ho2, ?_⟩
+        rw [← hq1, ← hq2]; exact hxq
+      · rintro ⟨k'', hk'', hko, o', ho1', ho2', hxv⟩
+        have : k'' = k' := by rw [hk'] at hk''; simpa using hk''
+        subst this
+        have hoo : o' = o := hu iv.over o' o iv.attrName ho1' ho1 ho2' ho2
+        subst hoo
+        refine ⟨by simpa using (C11_types_closure d rank h k'' iv.over).mpr hko, ?_⟩
+        -- the attribute is in the layout of `k'`
+        have hmem : o' ∈ attrOrder d k'' := (mem_attrOrder d rank h k'' o').mpr (SupStar.trans hko ho1')
+        unfold Declares at ho2'
+        rw [List.any_eq_true] at ho2'
+        obtain ⟨pa, hpa, hpn⟩ := ho2'
+        have hpn' : pa.1 = iv.attrName := by simpa using hpn
+        refine ⟨(o', pa.1, pa.2), ?_, rfl, hpn', hrd, by simpa [hpn'] using hxv⟩
+        unfold layoutOf
+        rw [List.mem_flatMap]
+        exact ⟨o', hmem, List.mem_map.mpr ⟨pa, hpa, rfl⟩⟩
+    by_cases hR : Referrer d x iv y
+    · have := hl.mpr hR
+      rw [this.1, this.2]
+      simp [hR]
+    · have hn : ¬ ((typesOf d k').contains iv.over = true ∧
+          (zipAttrs (redeclOf d k') (layoutOf d k') ((layoutOf d k').map (fun q => y.val q.1 q.2.1))).any
+            (fun a => a.owner == o && a.name == iv.attrName && a.refs.contains x) = true) := fun hh => hR (hl.mp hh)
+      simp only [hR, decide_false]
+      cases h1 : (typesOf d k').contains iv.over with
+      | false => simp
+      | true =>
+        cases h2 : (zipAttrs (redeclOf d k') (layoutOf d k') ((layoutOf d k').map (fun q => y.val q.1 q.2.1))).any
+            (fun a => a.owner == o && a.name == iv.attrName && a.refs.contains x) with
+        | false => simp
+        | true => exact absurd ⟨h1, h2⟩ hn
+  exact congrArg (fun l => Outcome.ok (l.map (·.id))) (List.filter_congr hfil)
+
+open Classical in
+/-- … none twice: distinct instance names give a duplicate-free result -/
+theorem C11_exact_schema_nodup (d : Dict) (x : Nat) (iv : InvDecl) (spop : List SInst) (hid : (spop.map (·.id)).Nodup) :
+    ((spop.filter (fun y => decide (Referrer d x iv y))).map (·.id)).Nodup :=
+  (List.filter_sublist.map _).nodup hid
+
+open Classical in
+/-- … **in id order**: when the population is listed by ascending instance name — the order in which `lazyRefs` iterates its candidate
+    `std::set` — the referrers are stored in ascending order -/
+theorem C11_id_order (d : Dict) (x : Nat) (iv : InvDecl) (spop : List SInst) (hid : (spop.map (·.id)).Pairwise (· < ·)) :
+    ((spop.filter (fun y => decide (Referrer d x iv y))).map (·.id)).Pairwise (· < ·) :=
+  hid.sublist (List.filter_sublist.map _)
+
 /-! ## the registry assumption, derived from the generated schema init code (C02's model) -/
 
 section Registry
